@@ -14,7 +14,7 @@ if ! git -C $wt apply $d/patch.diff 2>/dev/null; then
   git -C $wt apply -3 $d/patch.diff >/dev/null 2>&1 || { echo "$id APPLY-FAIL"; exit 2; }
 fi
 for p in "$@"; do
-  VERIF_REPO=$wt VERIF_OUT_DIR=$out /verif/vcheck run $p --tier $tier > $out/$p.log 2>&1
+  VERIF_REPO=$wt VERIF_OUT_DIR=$out ${VERIF_TOOLS_HOME:-/verif}/vcheck run $p --tier $tier > $out/$p.log 2>&1
   code=$?
   sum=$(grep -A1 -m1 "^VIOLATION" $out/$p.log | tail -1 | cut -c1-200)
   echo "$id $p exit=$code $sum"
